@@ -173,6 +173,17 @@ func ValidateSchemaDocument(sd *SchemaDocument) (*Schema, error) {
 		}
 	}
 
+	// Root operation types must be object types, whether named by a schema definition,
+	// a schema extension or taken by their default name.
+	for _, root := range []struct {
+		operation string
+		def       *Definition
+	}{{"Query", schema.Query}, {"Mutation", schema.Mutation}, {"Subscription", schema.Subscription}} {
+		if root.def != nil && root.def.Kind != Object {
+			return nil, gqlerror.ErrorPosf(root.def.Position, "%s root type must be Object type, it cannot be %s.", root.operation, root.def.Name)
+		}
+	}
+
 	if schema.Query != nil {
 		schema.Query.Fields = append(
 			schema.Query.Fields,
